@@ -100,13 +100,14 @@ func refMatch(cur, p string) (func(label.TargetLabel) bool, bool) {
 }
 
 type LabelResult struct {
-	Strings        int            `json:"strings"`
-	LabelsParsed   int            `json:"labels_parsed"`
-	PatternsParsed int            `json:"patterns_parsed"`
-	Documented     int            `json:"patterns_in_documented_form"`
-	MatchChecks    int            `json:"match_checks"`
-	Violations     map[string]int `json:"violations"`
-	Leads          map[string]int `json:"leads"`
+	Strings        int               `json:"strings"`
+	LabelsParsed   int               `json:"labels_parsed"`
+	PatternsParsed int               `json:"patterns_parsed"`
+	Documented     int               `json:"patterns_in_documented_form"`
+	MatchChecks    int               `json:"match_checks"`
+	ShorthandLaws  int               `json:"shorthand_law_checks"`
+	Violations     map[string]int    `json:"violations"`
+	Leads          map[string]int    `json:"leads"`
 	Examples       map[string]string `json:"examples"`
 }
 
@@ -144,7 +145,7 @@ func checkString(s string, curs []string, u []label.TargetLabel, res *LabelResul
 			}
 		} else {
 			// documented label forms must parse
-			if reFull.MatchString(s) && !strings.HasSuffix(s, ":...") {
+			if (reFull.MatchString(s) && !strings.HasSuffix(s, ":...")) || reShrt.MatchString(s) {
 				viol("label-documented-form-rejected", fmt.Sprintf("s=%q err=%v", s, err))
 			}
 		}
@@ -239,6 +240,39 @@ func TestLabels(t *testing.T) {
 			}
 			for _, f := range forms {
 				checkString(f, curs, u, &res)
+			}
+		}
+	}
+	// documented label forms over deeper package paths than the enumeration reaches, and the
+	// shorthand law: a label can be written //pkg exactly when its name is the last component
+	// of its package, and then //pkg parses back to it
+	deep := append([]string{"a/b/c/d", "x-y/z.w/q", "aa/a", "a/aa", "ab/b", "b/ab", "a/b/b", "b/b", "a/b/ab", "ab/ab", "a.b/b", "a-b/b", "c/b/a"}, uniPkgs...)
+	names := append([]string{"d", "q", "aa", "z.w"}, uniNames...)
+	for _, pk := range deep {
+		if pk != "" {
+			checkString("//"+pk, curs, u, &res)
+		}
+		for _, n := range names {
+			checkString("//"+pk+":"+n, curs, u, &res)
+			l := label.TargetLabel{Package: pk, Name: n}
+			res.ShorthandLaws++
+			comps := strings.Split(pk, "/")
+			want := pk != "" && n == comps[len(comps)-1]
+			if got := l.CanBeShortened(); got != want {
+				viol := "label-can-be-shortened-wrong"
+				res.Violations[viol]++
+				if _, ok := res.Examples[viol]; !ok {
+					res.Examples[viol] = fmt.Sprintf("%+v CanBeShortened()=%v want %v", l, got, want)
+				}
+			}
+			if l.CanBeShortened() {
+				if l2, err := label.ParseTargetLabel("zz", "//"+pk); err != nil || l2 != l {
+					viol := "label-shorthand-does-not-denote-the-label"
+					res.Violations[viol]++
+					if _, ok := res.Examples[viol]; !ok {
+						res.Examples[viol] = fmt.Sprintf("%+v can be shortened but //%s parses to %+v err=%v", l, pk, l2, err)
+					}
+				}
 			}
 		}
 	}
